@@ -482,10 +482,11 @@ def solverTol (interp : Bool) (x slope lo hi : Float) : Float :=
 def efSolver : Solver EF := fun interp f lo hi y =>
   let g : Float → Float := fun x => (f ⟨x, 0.0⟩).v
   let x := bisect g lo.v hi.v y.v
-  let h := 1.0e-6 * (fmaxE x.abs 1.0e-6)
+  let h := 1.0e-4 * (fmaxE x.abs 1.0e-6)
   let slope := (g (x + h) - g (x - h)) / (2.0 * h)
-  -- error of the target propagates through the inverse function with 1/slope
-  ⟨x, solverTol interp x slope lo.v hi.v + y.e / slope.abs⟩
+  -- the error of the target AND the rounding noise of the parent's own evaluation (an optimiser
+  -- cannot resolve below it) propagate through the inverse function with 1/slope
+  ⟨x, solverTol interp x slope lo.v hi.v + (y.e + 2.0 * (f ⟨x, 0.0⟩).e) / slope.abs⟩
 
 /-! ### line protocol -/
 
